@@ -21,6 +21,33 @@ pub enum ByteMut {
     /// overwrite the outer length prefix
     LenPrefix(LenKind),
     FlipRandomBit,
+    /// schema-free: the last length-prefixed vector of the message (found as a u64 v at some offset such that
+    /// the rest of the message is v elements of one plausible size) is emptied
+    TailVecEmpty,
+    /// the same vector loses its last element
+    TailVecMinus1,
+}
+
+/// (offset of the length prefix, element count, element size) of the last vector of a bincode message.
+pub fn tail_vec(d: &[u8]) -> Option<(usize, usize, usize)> {
+    if d.len() < 9 {
+        return None;
+    }
+    let mut p = d.len() - 9;
+    loop {
+        let v = u64::from_le_bytes(d[p..p + 8].try_into().unwrap()) as usize;
+        let rest = d.len() - p - 8;
+        if v >= 1 && v <= rest && rest % v == 0 {
+            let e = rest / v;
+            if [1usize, 2, 4, 8, 16, 17, 18, 24, 32, 33, 34, 40, 48, 64].contains(&e) {
+                return Some((p, v, e));
+            }
+        }
+        if p == 0 {
+            return None;
+        }
+        p -= 1;
+    }
 }
 
 #[derive(Clone, Debug, PartialEq)]
@@ -38,7 +65,7 @@ pub fn byte_mut_classes() -> Vec<ByteMut> {
     vec![
         Empty, OneByte, Truncate(1), Truncate(4), Truncate(7), CutLast, AppendGarbage, AllFF, RandomSameLen,
         LenPrefix(LenKind::Zero), LenPrefix(LenKind::Minus1), LenPrefix(LenKind::Plus1), LenPrefix(LenKind::Two32),
-        LenPrefix(LenKind::Two63), LenPrefix(LenKind::Max), FlipRandomBit,
+        LenPrefix(LenKind::Two63), LenPrefix(LenKind::Max), FlipRandomBit, TailVecEmpty, TailVecMinus1,
     ]
 }
 
@@ -53,6 +80,19 @@ pub fn apply_byte_mut(m: &ByteMut, data: &[u8], rng: &mut impl Rng) -> Vec<u8> {
         ByteMut::AllFF => { for b in d.iter_mut() { *b = 0xff; } }
         ByteMut::RandomSameLen => { rng.fill(&mut d[..]); }
         ByteMut::FlipRandomBit => { if !d.is_empty() { let i = rng.random_range(0..d.len()); d[i] ^= 1 << rng.random_range(0..8); } }
+        ByteMut::TailVecEmpty => {
+            if let Some((p, _, _)) = tail_vec(&d) {
+                d.truncate(p + 8);
+                d[p..p + 8].copy_from_slice(&0u64.to_le_bytes());
+            }
+        }
+        ByteMut::TailVecMinus1 => {
+            if let Some((p, v, e)) = tail_vec(&d) {
+                let l = d.len();
+                d.truncate(l - e);
+                d[p..p + 8].copy_from_slice(&((v - 1) as u64).to_le_bytes());
+            }
+        }
         ByteMut::LenPrefix(k) => {
             if d.len() >= 8 {
                 let cur = u64::from_le_bytes(d[..8].try_into().unwrap());
